@@ -6,6 +6,7 @@
 
 //@ raw
 #[verifier::reject_recursive_types(T)]
+#[verifier::external_body]
 pub struct State<'a, T> { p: core::marker::PhantomData<&'a T> }
 //@ item keyberon/src/layout.rs enum Event
 //@@ keep-vis
